@@ -209,7 +209,7 @@ struct List
         else
         {
             auto s = cntgs::get<I>(r);
-            if (s.size() > 64)
+            if (s.size() > 4096)
             {
                 out.push_back(-9);  // absurd span length: do not iterate
                 return;
